@@ -1,6 +1,6 @@
 CONSTANTS
   P = 46337
-  Classes = {"LRBF", "LSEM", "HetExp", "HetCosh", "HetStep", "HetRelu"}
+  Classes = {"LRBF", "LSEM"}
   Dims = {11, 12, 21, 22}
   Dks = {1, 2}
   Das = {2, 3}
